@@ -293,6 +293,14 @@ def rand_instances(rng, n):
             yield 'timezone', dt.timezone(off) if rng.random() < 0.5 else dt.timezone(off, V.rand_text(rng, 10))
 
 
+_ORDER_FREE = [False]   # set while judging an output printed with sort_dict_keys=True: plain dicts (whose equality ignores order) may be reordered
+
+
+def _items(o):
+    it = [(skey(k), skey(v)) for k, v in o.items()]
+    return tuple(sorted(it, key=repr)) if _ORDER_FREE[0] else tuple(it)
+
+
 def skey(o):
     """structural key: equality of keys == the equality the property demands"""
     t = type(o)
@@ -304,7 +312,7 @@ def skey(o):
     if t is collections.deque:
         return ('deque', o.maxlen, tuple(skey(x) for x in o))
     if t is collections.defaultdict:
-        return ('defaultdict', o.default_factory, tuple((skey(k), skey(v)) for k, v in o.items()))
+        return ('defaultdict', o.default_factory, _items(o))
     if t is collections.OrderedDict:
         return ('OrderedDict', tuple((skey(k), skey(v)) for k, v in o.items()))
     if t is collections.Counter:
@@ -322,7 +330,7 @@ def skey(o):
     if isinstance(o, dt.tzinfo):
         return tzkey(o, None)
     if t is dict:
-        return ('dict', tuple((skey(k), skey(v)) for k, v in o.items()))
+        return ('dict', _items(o))
     if t in (list, tuple):
         return (t.__name__, tuple(skey(x) for x in o))
     if isinstance(o, tuple):
@@ -407,6 +415,7 @@ def check_one(sh, tname, inst, ctx, cfg):
     elif type(got) is not type(inst):
         sh.violation('type-changed:' + tname, 'evaluates to %s: %r' % (type(got).__name__, text[:300]), case)
         return text
+    _ORDER_FREE[0] = bool(cfg.get('sort_dict_keys'))
     try:
         same = skey(got) == skey(inst)
     except Exception as e:
@@ -435,6 +444,8 @@ def check_one(sh, tname, inst, ctx, cfg):
 
 def configs(rng, quick):
     cfgs = [{}, {'width': rng.choice([1, 10, 20, 40]), 'ribbon_width': rng.choice([1, 10, 71]), 'indent': rng.choice([1, 2, 4, 8])}]
+    # key sorting is a setting too: it may reorder plain dicts, never an OrderedDict (whose equality is order-sensitive) or any other type
+    cfgs.append({'sort_dict_keys': True, 'width': rng.choice([20, 79, 200])})
     if not quick:
         cfgs += [{'width': rng.randint(1, 200), 'ribbon_width': rng.randint(1, 200), 'indent': rng.randint(1, 8)} for _ in range(4)]
         cfgs += [{'width': 200, 'ribbon_width': 200, 'indent': 8}, {'width': 1, 'ribbon_width': 1, 'indent': 1}]
